@@ -11,4 +11,7 @@ cp -r "$V/harness" "$B/harness"
 cd "$B/harness"
 sed "s#@REPO@#$REPO#" go.mod.tmpl > go.mod
 cp "$REPO/go.sum" .
-go build -tags verif -o "$B/bin/" ./cmd/... 
+go build -tags verif -o "$B/bin/" ./cmd/...
+# race-instrumented driver for the concurrent families (C14, C17, C18)
+go build -race -tags verif -o "$B/bin/drive-race" ./cmd/drive
+
